@@ -35,6 +35,7 @@ struct Scen{
     TypeOneDRule rule = rule_localp;
     int dims = 2, outs = 1, depth = 1, order = 1;
     int budget = 20, batch = 1, jobs = 1;
+    bool preloaded = false;         // the user's grid already holds > 1000 loaded points: completed samples then wait in the stored-samples section
     bool parallel = false, guess = false;
     int overload = 0;               // 0 surplus (tolerance, criteria), 1 anisotropic with user weights, 2 anisotropic with estimated weights
     TypeDepth type = type_iptotal;
@@ -52,12 +53,12 @@ struct Scen{
         if (overload == 0){ j.num("tol", tol).str("criteria", refname(crit)); } else { j.str("type", tname(type)); if (overload == 1) j.vec("aw", aw); }
         if (overload != 1) j.i("output", output);
         if (!limits.empty()) j.vec("limits", limits);
-        j.b("transform", transform);
+        j.b("transform", transform).b("preloaded", preloaded);
         return j.obj();
     }
     std::string sig() const{
         return std::string(fam_name(family)) + "/" + rname(rule) + "/d" + std::to_string(dims) + "/o" + std::to_string(outs) + "/b" + std::to_string(batch)
-            + (parallel ? "/par" + std::to_string(jobs) : "/seq") + (guess ? "/guess" : "") + "/ov" + std::to_string(overload);
+            + (parallel ? "/par" + std::to_string(jobs) : "/seq") + (guess ? "/guess" : "") + "/ov" + std::to_string(overload) + (preloaded ? "/preloaded" : "");
     }
 };
 
@@ -66,8 +67,9 @@ Scen make_scenario(uint64_t seed, long long scen, bool parallel, bool thorough){
     Scen s;
     s.parallel = parallel;
     // structured part: family and batch size cycle with the scenario index so that every tier covers them all
-    static const int fams_q[] = {fam_localp, fam_sequence, fam_global, fam_localp, fam_wavelet, fam_fourier};
-    int nf = 6;
+    static const int fams_q[] = {fam_localp, fam_sequence, fam_global, fam_localp, fam_wavelet, fam_fourier, fam_localp};
+    int nf = 7;
+    s.preloaded = (scen % nf == 6);
     s.family = fams_q[scen % nf];
     s.batch = 1 + (int)((scen / nf) % 3);
     s.dims = (rng.coin(0.75)) ? 2 : (rng.coin(0.5) ? 1 : 3);
@@ -106,6 +108,7 @@ Scen make_scenario(uint64_t seed, long long scen, bool parallel, bool thorough){
     if (rng.coin(0.3)){ for(int j=0; j<s.dims; j++) s.limits.push_back(rng.range(3, 6)); }
     s.transform = rng.coin(0.3);
     s.latency_us = parallel ? rng.pick(std::vector<int>{0, 50, 200, 400}) : 0;
+    if (s.preloaded){ s.dims = 2; s.outs = 1; s.transform = false; s.limits.clear(); s.rule = rule_localp; s.order = 1; s.tol = 1e-6; s.crit = refine_classic; s.output = -1; s.guess = false; }
     return s;
 }
 
@@ -121,6 +124,13 @@ TasmanianSparseGrid make_initial(Scen &s){
             default:           g = makeFourierGrid(s.dims, s.outs, depth, type_level); break;
         }
         if (g.getNumPoints() >= s.jobs * s.batch) break;
+    }
+    if (s.preloaded){
+        // level 7 in two dimensions: 1537 points, all loaded by the user before the call; the budget leaves 8..16 samples to construct
+        g = makeLocalPolynomialGrid(2, 1, 7, 1, rule_localp); s.depth = 7;
+        std::vector<double> p = g.getNeededPoints();
+        g.loadNeededValues(tagged_values(p, 2, 1, 0));
+        s.budget = g.getNumLoaded() + 8 + (s.budget % 9);
     }
     if (s.budget < g.getNumPoints() + 4) s.budget = g.getNumPoints() + 4;
     if (s.transform){
@@ -160,7 +170,7 @@ bool read_file(std::string const &name, std::string &data){
     std::ifstream f(name, std::ios::binary); if (!f.good()) return false;
     std::ostringstream ss; ss << f.rdbuf(); data = ss.str(); return true;
 }
-struct SnapInfo{ bool ok = false; long grid_bytes = 0, loaded = 0, stored = 0; std::vector<double> pts; int dims = 0; std::string err; };
+struct SnapInfo{ bool ok = false; long grid_bytes = 0, loaded = 0, stored = 0, trailing = 0; std::vector<double> pts; int dims = 0; std::string err; };
 SnapInfo parse_snapshot(std::string const &file, std::string const &real_name){
     // the bytes are read through a path that the shim does not track and handed to the library reader through a string stream
     SnapInfo si; std::string data;
@@ -175,7 +185,8 @@ SnapInfo parse_snapshot(std::string const &file, std::string const &real_name){
     size_t off = (size_t) si.grid_bytes;
     if (data.size() < off + 16){ si.err = "no stored-samples header"; return si; }
     uint64_t np, nv; std::memcpy(&np, &data[off], 8); std::memcpy(&nv, &data[off + 8], 8);
-    if (data.size() != off + 16 + 8 * (np + nv)){ si.err = "stored-samples section has the wrong length"; return si; }
+    if (np > data.size() || nv > data.size() || data.size() < off + 16 + 8 * (np + nv)){ si.err = "stored-samples section is shorter than its counts"; return si; }
+    si.trailing = (long)(data.size() - (off + 16 + 8 * (np + nv))); // bytes after the documented content (none on the pinned tree)
     si.stored = (long)(np / (uint64_t) std::max(1, si.dims));
     for(uint64_t i=0; i<np; i++){ double v; std::memcpy(&v, &data[off + 16 + 8 * i], 8); si.pts.push_back(v); }
     si.ok = true; return si;
@@ -183,13 +194,6 @@ SnapInfo parse_snapshot(std::string const &file, std::string const &real_name){
 
 } // anonymous namespace
 } // namespace vf
-
-// weak dispatcher shared by every monitor that uses hooks (identical weak definitions may appear in other monitor files;
-// the linker keeps one of them).  A monitor installs its handler in vf_hook_sink for the duration of a case.
-extern "C"{
-__attribute__((weak)) void (*vf_hook_sink)(const char*, long, long) = nullptr;
-__attribute__((weak)) void tsg_verif_hook(const char *tag, long a, long b){ if (vf_hook_sink) vf_hook_sink(tag, a, b); }
-}
 
 namespace vf{
 
@@ -208,7 +212,7 @@ void mon_c17(CaseCtx &c, Rng &){
     if (mode == "dump"){
         emit_begin(c, J().str("mode", "dump").obj());
         SnapInfo si = parse_snapshot(arg("file", ""), "");
-        printf("D %s\n", J().b("ok", si.ok).i("grid_bytes", si.grid_bytes).i("loaded", si.loaded).i("stored", si.stored).str("err", si.err).obj().c_str());
+        printf("D %s\n", J().b("ok", si.ok).i("grid_bytes", si.grid_bytes).i("loaded", si.loaded).i("stored", si.stored).i("trailing", si.trailing).str("err", si.err).obj().c_str());
         c.sig("dump"); return;
     }
 
@@ -274,7 +278,7 @@ void mon_c17(CaseCtx &c, Rng &){
     };
 
     g_hooks.recovered_source = -1; g_hooks.recovered_points = -1; g_hooks.ckpt_begin = g_hooks.ckpt_end = 0; g_hooks.active = true;
-    vf_hook_sink = c17_hook;
+    g_hook_handler.store(&c17_hook);
     std::string thrown;
     try{
         size_t B = (size_t) s.budget, Jn = (size_t) s.jobs, Bt = (size_t) s.batch;
@@ -292,7 +296,7 @@ void mon_c17(CaseCtx &c, Rng &){
         thrown = "unknown";
         c.viol(std::string(mode == "restart" ? "restart" : "run") + "-exception:unknown@" + fclass, J().kv("scenario", s.json()).obj());
     }
-    vf_hook_sink = nullptr; g_hooks.active = false;
+    g_hook_handler.store(nullptr); g_hooks.active = false;
     if (g_logfd >= 0){ ::close(g_logfd); g_logfd = -1; }
     printf("R %s\n", J().i("launched", launched.load()).i("loaded", thrown.empty() ? grid.getNumLoaded() : -1).i("recovered_source", g_hooks.recovered_source)
            .i("recovered_points", g_hooks.recovered_points).i("ckpt_begin", g_hooks.ckpt_begin).i("ckpt_end", g_hooks.ckpt_end).i("saved", (long long) saved.size()).obj().c_str());
